@@ -91,9 +91,18 @@ def h_noisy(env, spec, n, assign, canary=False):
     circ = Circuit(gates, n_qubits=n)
     nm, ref = make_noise(env, assign)
     want = oracle_dm(spec if not canary else spec[::-1], params if not canary else params[::-1], n, ref)
+    sig0 = [(g.name, list(g.target), list(g.control or []), g.parameter) for g in circ._gates]
     if env.symbolic:
         b = backend(env, nm)
         freqs, _ = b.simulate(circ)
+        # a noisy simulation only READS the circuit; running it again gives the same state
+        sig1 = [(g.name, list(g.target), list(g.control or []), g.parameter) for g in circ._gates]
+        env.check_same([x[:3] for x in sig1], [x[:3] for x in sig0], "noisy simulation leaves the gates of the source circuit unchanged")
+        b2 = backend(env, nm)
+        b2.simulate(circ)
+        rho2 = b2.cirq.sampler_calls[0]["rho"]
+        env.check_vec_eq([rho2[i][j] for i in range(2 ** n) for j in range(2 ** n)], [want[i][j] for i in range(2 ** n) for j in range(2 ** n)],
+                         "a second noisy simulation of the same circuit object gives the same density matrix")
         calls = b.cirq.sampler_calls
         env.check_true(len(calls) == 1 and calls[0]["kind"] == "density_matrix", "density-matrix sampler used once")
         rho = calls[0]["rho"]
@@ -210,6 +219,15 @@ def h_reject(env, case):
     elif case == "twice":
         nm.add_quantum_error("X", "depol", 0.1)
         env.check_raises(lambda: nm.add_quantum_error("X", "depol", 0.2), "same channel type twice on one gate is rejected")
+        # a REJECTED entry leaves the model as it was: exactly the channels that were accepted are applied afterwards
+        env.check_same([(t, p) for t, p in nm._quantum_errors["X"]], [("depol", 0.1)], "a rejected channel is not stored in the noise model")
+        for bad in (lambda: nm.add_quantum_error("X", "pauli", [0.1, 0.1]), lambda: nm.add_quantum_error("Y", "foo", 0.1),
+                    lambda: nm.add_quantum_error("Z", "depol", [0.1, 0.2])):
+            try:
+                bad()
+            except Exception:       # noqa
+                pass
+        env.check_same({k: list(v) for k, v in nm._quantum_errors.items() if v}, {"X": [("depol", 0.1)]}, "rejected entries (any reason) leave no trace in the model")
     elif case == "no-shots":
         nm.add_quantum_error("X", "depol", 0.1)
         env.check_raises(lambda: get_backend("cirq", n_shots=None, noise_model=nm), "noise without shots is rejected")
@@ -254,6 +272,9 @@ def shapes(tier, seed):
         ([("RY", [0], []), ("CNOT", [1], [0])], 2, [("CNOT", "depol"), ("CNOT", "pauli")]),
         ([("RY", [0], []), ("CNOT", [1], [0])], 2, [("CNOT", "pauli"), ("CNOT", "depol")]),
         ([("H", [1], []), ("CRZ", [0], [1])], 2, [("CRZ", "depol"), ("CRZ", "pauli")]),
+        # one gate NAME occurring with different numbers of qubits (the depolarising channel acts on all of them)
+        ([("H", [0], []), ("CRZ", [2], [0]), ("CRZ", [2], [0, 1])], 3, [("CRZ", "depol")]),
+        ([("RY", [1], []), ("CX", [0], [1, 2]), ("CX", [2], [1])], 3, [("CX", "depol")]),
     ]
     if tier == "thorough":
         cases += [
